@@ -268,6 +268,9 @@ def _store_subset_groups(command, session):
     # Remember which subset groups exist and which are being edited, so that
     # undo can remove groups that the command creates
     command.old_groups = list(getattr(command.data_collection, 'subset_groups', ()))
+    # The states are also remembered per group, since a group has no subsets
+    # to remember them by while the collection is empty
+    command.old_group_states = dict((group, group.subset_state) for group in command.old_groups)
     mode = getattr(session, 'edit_subset_mode', None)
     command.old_edit_subset = None if mode is None else mode.edit_subset
 
@@ -276,6 +279,8 @@ def _restore_subset_groups(command, session):
     for group in list(getattr(command.data_collection, 'subset_groups', ())):
         if group not in command.old_groups:
             command.data_collection.remove_subset_group(group)
+        else:
+            group.subset_state = command.old_group_states[group]
     mode = getattr(session, 'edit_subset_mode', None)
     if mode is not None:
         mode.edit_subset = command.old_edit_subset
